@@ -414,7 +414,9 @@ CLAIMED.update(
             "Decides the structural clauses of 'process state is as before after every execution': in OutputSuppressionContext the value written back for file descriptors 0-2 and for the "
             "logging threshold originates from a read made in __enter__, restoring writes are guarded only by the idempotence flag / `saved is not None` (never by what the executed code "
             "left behind), __exit__ calls restore() unconditionally, the executor restores on its timeout path, statements run inside `with FilesystemIsolation(), output suppression, "
-            "tracer`, and the shared /dev/null sink is re-opened when a previous test case closed it; suppress_logging restores the previous threshold in a finally; _make_deterministic "
+            "tracer`; __enter__, interpreted with the shared /dev/null sink usable, closed and detached by an earlier test case, returns normally with both streams on one usable sink that is "
+            "(again) the shared one; __enter__ -> a test case that rebinds stdin / stdout / stderr, raises the logging threshold and the root level and closes fds 0-2 -> restore(), interpreted "
+            "over a model of the process state, leaves every one of these facets as before; suppress_logging restores the previous threshold in a finally; _make_deterministic "
             "reseeds with the configured seed, excludes randomness.RNG, is the first action of the before-hook, and that hook dominates every executed statement (so a timed-out test "
             "cannot leave consumed random state to its successor). The streams are restored to sys.__stdout__/__stderr__ instead of the saved objects: known finding pinned by the "
             "existing tests. Hidden state inside the module under test is not decided.",
